@@ -302,7 +302,14 @@ impl<T: Qcow2IoOps> Qcow2Dev<T> {
         {
             Some(to_kill) => {
                 log::warn!("add_rb_slice: cache eviction, slices {}", to_kill.len());
-                self.flush_cache_entries(to_kill).await
+                let res = self.flush_cache_entries(to_kill.clone()).await;
+
+                if res.is_err() {
+                    // the victims aren't written back, and they are lost unless
+                    // they are cached again
+                    self.refblock_cache.put_back(to_kill);
+                }
+                res
             }
             _ => Ok(()),
         }
